@@ -449,6 +449,7 @@ class Interp(ExprMixin, LoopMixin, CallMixin):
         exc = self._to_exc(v, st)
         if st.cause is not None:
             exc.cause = self.eval(st.cause)
+        exc.raise_node = st
         self.event('raise', st, exc=exc)
         raise Raised(exc)
 
